@@ -141,6 +141,21 @@ Theorem C25_certificate_fast_sound :
 Proof. exact conform_req3_sound. Qed.
 Print Assumptions C25_certificate_fast_sound.
 
+(* Coupling completeness: acceptance also gives that, for every pair (grid of dimension d,
+   grid of dimension d-1), the faces of the first whose centre coincides with a cell centre of
+   the second are exactly the faces coupled by an interface between the two (in particular a
+   missing interface at a T- or L-ending is rejected). *)
+Theorem C25_certificate_coupling_complete :
+  forall d r ext inc, conform_req4 d r ext inc = true ->
+  Conforming d /\ RequestConf r /\ ExtentsConf ext /\ IncidenceConf inc.
+Proof. exact conform_req4_sound. Qed.
+Print Assumptions C25_certificate_coupling_complete.
+
+Example C25_nonvacuous_coupling :
+  incidence_ok [([1; 3]%nat, [3; 1]%nat); ([2]%nat, [2]%nat)] = true /\
+  incidence_ok [([1; 3]%nat, [3; 1]%nat); ([2]%nat, [])] = false.
+Proof. vm_compute. split; reflexivity. Qed.
+
 (* Non-vacuity: a host of two cells [0,1], [1,2] with faces at 0, 1, 2; the lower cell 0
    sits on face 1.  The split gives face 3 = copy of 1 attached to the left cell 0, face 1
    keeps the right cell 1, frac_pairs (1,3), face-cell map {(0,1),(0,3)}; and a matching
